@@ -19,6 +19,7 @@ type c08GridCase struct {
 	Index string `json:"index"` // literal spelling, or a universe-ish name handled below
 	Rep   string `json:"rep"`
 	AsVar bool   `json:"asvar,omitempty"`
+	IxRep string `json:"ixrep,omitempty"` // with AsVar: the Go integer type of the variable (int8, int64, uint16, ...)
 }
 
 var c08Grid = hx.Define("c08.index-grid", func(c *c08GridCase, s *hx.Sub) *hx.Violation {
@@ -41,6 +42,15 @@ var c08Grid = hx.Define("c08.index-grid", func(c *c08GridCase, s *hx.Sub) *hx.Vi
 		}
 		if c.AsVar {
 			binds["i"], ix = n, "i"
+			if c.IxRep != "" {
+				if !hx.IntFits(int64(n), c.IxRep) {
+					s.Exclude()
+					return nil
+				}
+				sp := hx.SInt(int64(n))
+				sp.R = c.IxRep
+				binds["i"] = sp.Realise()
+			}
 		}
 	} else {
 		switch c.Index {
@@ -308,7 +318,7 @@ func TestC08(t *testing.T) {
 	col.Corpus()
 	env := col.Env
 
-	grid := c08Grid.On(col, "exhaustive: array length 0..5 x index in -7..7 (as literal and through a variable) and the non-integer indices \"x\", 1.5, nil, true, an array, an undefined name, x {[]any, []int, fixed array}; oracle: element counted from the end for negative indices, nil (empty output) when out of range or non-numeric, never an error; float index unspecified. Distinct by construction", true)
+	grid := c08Grid.On(col, "exhaustive: array length 0..5 x index in -7..7 (as literal and through a variable of every integer width) and the non-integer indices \"x\", 1.5, nil, true, an array, an undefined name, x {[]any, []int, fixed array}; oracle: element counted from the end for negative indices, nil (empty output) when out of range or non-numeric, never an error; float index unspecified. Distinct by construction", true)
 	idx := 0
 	for l := 0; l <= 5; l++ {
 		for _, rep := range []string{"", "typed", "array"} {
@@ -317,6 +327,14 @@ func TestC08(t *testing.T) {
 					idx++
 					if env.Mine(idx) {
 						grid.Run(&c08GridCase{Len: l, Index: fmt.Sprint(i), Rep: rep, AsVar: asVar})
+						if asVar && rep == "" {
+							// the index variable in every other integer width that holds it
+							for _, ir := range hx.IntReps {
+								if ir != "" {
+									grid.Run(&c08GridCase{Len: l, Index: fmt.Sprint(i), Rep: rep, AsVar: true, IxRep: ir})
+								}
+							}
+						}
 					}
 				}
 			}
